@@ -248,9 +248,17 @@ func init() {
 	register(&CheckDef{ID: "C13", Level: "model_checking", Only: []string{"C13."}, Assumptions: as,
 		Jobs: func(tier string) []JobDef {
 			if tier == "thorough" {
-				return []JobDef{exporterJob("HarnessC12Prom", 1, 1, fmt.Sprintf(storeBound, 1)), withMaxLV(exporterJob("HarnessC12Prom", 2, 1, fmt.Sprintf(storeBound, 2)), 1)}
+				same := withMaxLV(exporterJob("HarnessC12Prom", 2, 0, "two programs declaring a metric of the same name (each any kind/type, own key, 0..2 label sets): every emitted sample carries its own program's label names and values"), 2)
+				same.Name += "-samename"
+				same.Params["samename"] = 1
+				same.Params["nofault"] = 1
+				return []JobDef{exporterJob("HarnessC12Prom", 1, 1, fmt.Sprintf(storeBound, 1)), withMaxLV(exporterJob("HarnessC12Prom", 2, 1, fmt.Sprintf(storeBound, 2)), 1), same}
 			}
-			return []JobDef{exporterJob("HarnessC12Prom", 1, 1, fmt.Sprintf(storeBound, 1))}
+			same := withMaxLV(exporterJob("HarnessC12Prom", 2, 0, "two programs declaring a metric of the same name (each any kind/type, own key, 0..1 label sets): every emitted sample carries its own program's label names and values"), 1)
+			same.Name += "-samename"
+			same.Params["samename"] = 1
+			same.Params["nofault"] = 1
+			return []JobDef{exporterJob("HarnessC12Prom", 1, 1, fmt.Sprintf(storeBound, 1)), same}
 		},
 		Outside: []string{"the expfmt text rendering and the registry's consistency checks (claim is to the client-library boundary: the arguments of the constructor calls)", "timestamps are compared at the client library's millisecond resolution", "stores in which two exported series share a name and label set (excluded by the property)"}})
 }
